@@ -135,6 +135,8 @@ CATCH_UNWIND = {"std::panic::catch_unwind", "std::panicking::catch_unwind", "cor
 # Traits whose methods on a type parameter / dyn are NOT arbitrary user code for our purposes
 # (marker-ish or allocation-free std plumbing). Everything else on a param/dyn is user code.
 BENIGN_TRAITS = {"std::marker::Sized", "std::any::Any", "std::ptr::Pointee", "std::marker::Unpin",
+                 # conversions between a crate's own handle types (`impl Into<RawPooled<T>>`); a check whose crate
+                 # converts into USER types (linked: Family<T> -> T) removes them via `user_traits`
                  "std::convert::From", "std::convert::Into", "std::borrow::Borrow",
                  # implemented by the std range types; internal bitmap helpers take `impl RangeBounds<usize>`
                  "std::ops::RangeBounds"}
@@ -199,8 +201,11 @@ class UserCode:
     caller's own Fn-bounded parameter or a closure that itself runs user code, so
     `insert(value)` (internal closure `|u| u.write(value)`) is not mistaken for a callback."""
 
-    def __init__(self, prog, extra_user_callees=(), benign_callees=(), benign_sites=()):
+    def __init__(self, prog, extra_user_callees=(), benign_callees=(), benign_sites=(), benign_fnptr_fields=(), user_traits=()):
         self.prog = prog
+        self.benign_traits = set(BENIGN_TRAITS) - set(user_traits)
+        self.user_traits = set(user_traits)
+        self.benign_fnptr_fields = tuple(benign_fnptr_fields)
         self.extra = set(extra_user_callees)
         self.benign = set(benign_callees)
         self.benign_sites = set(benign_sites)   # (body.key, what-prefix)
@@ -305,6 +310,10 @@ class UserCode:
             return None
         c = t["callee"]
         if c.get("rkind") == "indirect":
+            if self.benign_fnptr_fields and c.get("op"):
+                _r, fs = op_access_path(body, c["op"])
+                if fs and any(fs[-1].endswith(x) for x in self.benign_fnptr_fields):
+                    return None
             return ("U4-fnptr", "indirect call through fn pointer")
         keys = callee_paths(c)
         if keys & self.benign:
@@ -321,9 +330,12 @@ class UserCode:
                 if ty_mentions_user(ta) and ta.get("needs_drop", True):
                     return ("U2-dropfn", c["full"])
             return None
+        if c.get("trait") in self.user_traits and any(ta.get("param") or ta.get("dyn") for ta in c.get("targs", [])):
+            # e.g. `<Family<T> as Into<T>>::into` resolves to std's blanket impl, which calls the user's `From`
+            return ("U1-generic", c["full"])
         if c.get("trait") and (c.get("rkind") in ("unresolved", "virtual") or c.get("rtrait_default")):
             tr = c["trait"]
-            if tr in BENIGN_TRAITS:
+            if tr in self.benign_traits:
                 return None
             if st.get("k") == "param" and any(tr.endswith(n) for n in FN_TRAIT_NAMES):
                 return ("P", st["s"])
